@@ -594,10 +594,11 @@ class KeychainSqlite3(Keychain):
                 self.conn.commit()
                 self.new_key(name)
             except Exception:
-                # Do not leave an identity without key behind, which a retry would return as it is
+                # Do not leave a half-made identity behind, which a retry would return as it is.
+                # The key may already be stored when a later step fails: remove whatever is under the identity.
                 self.conn.rollback()
-                self.conn.execute('DELETE FROM identities WHERE identity=?', (name,))
-                self.conn.commit()
+                if name in self:
+                    self.del_identity(name)
                 raise
         if not self.has_default_identity():
             self.set_default_identity(name)
